@@ -26,8 +26,27 @@ func VF_C01_L1_Converge() {
 	isModel := zzvf.Param("model") == 1
 	lag := zzvf.Param("lag") == 1
 	w := vfNewWorld(Config{})
-	clA := w.connect("cidA", versionLatest)
-	clB := w.connect("cidB", versionLatest)
+	// legacy: both clients negotiated protocol 1.2.0 (soft references arrive
+	// as plain rid strings, data values as the "[Data]" placeholder)
+	legacy := zzvf.ParamOr("legacy", 0) == 1
+	proto := versionLatest
+	if legacy {
+		proto = 1002000
+	}
+	enc := func(raw string) string {
+		if !legacy {
+			return raw
+		}
+		switch raw {
+		case `{"rid":"test.soft","soft":true}`:
+			return `"test.soft"`
+		case `{"data":{"x":[1]}}`:
+			return `"[Data]"`
+		}
+		return raw
+	}
+	clA := w.connect("cidA", proto)
+	clB := w.connect("cidB", proto)
 	rA, rB := vfNewRun(w, clA), vfNewRun(w, clB)
 	refA, refB := vfNewRefClient(), vfNewRefClient()
 	rid := "test.col"
@@ -146,7 +165,19 @@ func VF_C01_L1_Converge() {
 				switch zzvf.Choose("event-kind", 4) {
 				case 0:
 					key := []string{"a", "b"}[zzvf.Choose("key", 2)]
-					val := []string{`"x"`, `"y"`, `{"rid":"test.model"}`}[zzvf.Choose("value", 3)]
+					vals := []string{`"x"`, `"y"`, `{"rid":"test.model"}`}
+					if zzvf.ParamOr("rich", 0) == 1 {
+						vals = append(vals, `{"rid":"test.soft","soft":true}`, `{"data":{"x":[1]}}`)
+					}
+					val := vals[zzvf.Choose("value", len(vals))]
+					if zzvf.ParamOr("rich", 0) == 1 && zzvf.Choose("with-reference", 2) == 1 {
+						// the same event also introduces a resource reference
+						svcModel["c"] = `{"rid":"test.model"}`
+						svcModel[key] = val
+						zzvf.Note("event: change " + key + "=" + val + " and c -> test.model")
+						w.mq.event("event."+rid, "change", []byte(`{"values":{"`+key+`":`+val+`,"c":{"rid":"test.model"}}}`))
+						break
+					}
 					svcModel[key] = val
 					zzvf.Note("event: change " + key + "=" + val)
 					w.mq.event("event."+rid, "change", []byte(`{"values":{"`+key+`":`+val+`}}`))
@@ -236,8 +267,9 @@ func VF_C01_L1_Converge() {
 		if isModel {
 			same := len(res.model) == len(svcModel)
 			for k, v := range svcModel {
-				if res.model[k] != v {
+				if res.model[k] != enc(v) {
 					same = false
+					zzvf.Note("key " + k + ": client " + res.model[k] + " service " + enc(v))
 				}
 			}
 			zzvf.Assert(same, "client-copy-equals-service-state")
